@@ -1,6 +1,8 @@
 import NbioVerif.Model.Rfc6455
 import NbioVerif.Model.WsMask
 import NbioVerif.Model.WsTrunc
+import NbioVerif.Model.WsUp
+import NbioVerif.Model.WsHandshake
 import NbioVerif.DrvCommon
 /-! wsdrv: runs the websocket model on the annotated ops of `hws exec` (see harness/cmd/hws/main.go) -/
 open Ws Drv
@@ -100,10 +102,22 @@ structure DS where
   s : S := {}
   dead : Bool := false
   all : List (List UInt8) := []      -- segments of the case, reversed
+  up : Option UpS := none            -- upgrade hand-off case
   -- round trip
   gc : Cfg := ⟨false, false, 0, 0, 32768, true⟩
   c : S := {}
   sv : S := {}
+
+/-- "hexk:hexv,hexk:hexv" -/
+def kvList (x : String) : List (List UInt8 × List UInt8) :=
+  if x == "-" || x == "" then [] else
+  (splitNE x ",").filterMap fun p => match p.splitOn ":" with
+    | [k, v] => some (unhex k, unhex v)
+    | _ => none
+
+def hexItems (x : String) : List (List UInt8) := (splitNE x ",").map unhex
+
+def sortStrings (l : List String) : List String := (l.toArray.qsort (· < ·)).toList
 
 def opType (s : String) : Nat :=
   match s with
@@ -136,12 +150,84 @@ partial def loop (h : IO.FS.Stream) (d : DS) : IO Unit := do
     let g : Cfg := { enableCompression := comp, writeCompression := comp, msgLimit := (f "limit").toNat!,
                      readLimit := (f "readlimit").toNat!, maxFrame := (f "maxframe").toNat!, isClient := f "role" == "client" }
     IO.println "ok"; loop h { mode := "recv", g }
+  | "C" :: "up" :: _ =>
+    let comp := f "compress" == "1"
+    let g : Cfg := { enableCompression := comp, writeCompression := comp, msgLimit := (f "limit").toNat!,
+                     readLimit := 0, maxFrame := (f "maxframe").toNat!, isClient := true }
+    IO.println "ok"; loop h { mode := "recv", g, up := some {} }
+  | "H" :: sp :: _ =>
+    match d.up with
+    | none => IO.println "bad-op"; loop h d
+    | some u =>
+      let data := bytesOf sp
+      if d.dead then IO.println "dead"; loop h d else
+      let (u', r) := upParse d.g (mkEnv ws "keys" u.s.k.nwrites) u data
+      let d := if u'.upgraded then { d with all := (if u.upgraded then data else (u.head ++ data).drop ((headEnd (u.head ++ data)).getD 0)) :: d.all } else d
+      match r.err with
+      | none => IO.println s!"R ok cache={r.s.cache.length} msglen={msgLen r.s} {showActs r.acts}"; loop h { d with up := some u', s := u'.s }
+      | some er =>
+        IO.println s!"R err={er.code} cache={r.s.cache.length} msglen={msgLen r.s} {showActs r.acts}"
+        loop h { d with up := some u', s := u'.s, dead := true }
   | "C" :: "rt" :: _ =>
     let comp := f "compress" == "1"
     let g : Cfg := { enableCompression := comp, writeCompression := comp, msgLimit := (f "limit").toNat!,
                      readLimit := 0, maxFrame := (f "maxframe").toNat!, isClient := false }
     IO.println "ok"; loop h { mode := "rt", g, gc := { g with isClient := true } }
   | "C" :: "mask" :: _ => IO.println "ok"; loop h { mode := "mask" }
+  | "C" :: "hs" :: _ => IO.println "ok"; loop h { mode := "hs" }
+  | "Q" :: _ =>
+    if d.mode != "hs" then IO.println "bad-op"; loop h d else
+    let sha := unhex (f "sha")
+    let u : WsH.UCfg := { enableCompression := f "ec" == "1",
+                          subprotocols := if f "sp" == "nil" then none else some (hexItems (f "sp")),
+                          originOk := f "origin" != "0",
+                          respHeader := WsH.canonHeader (kvList (f "rh")) }
+    -- the first key header carries the value the Upgrader saw (uk=x<hex>), when the harness reports one
+    let hd0 := WsH.canonHeader (kvList (f "hd"))
+    let uk := f "uk"
+    let hd1 := if uk.startsWith "x" then
+        (hd0.foldl (fun (acc : List (List UInt8 × List UInt8) × Bool) kv =>
+          if !acc.2 && kv.1 == WsH.s "Sec-Websocket-Key" then (acc.1 ++ [(kv.1, unhex (uk.drop 1).toString)], true) else (acc.1 ++ [kv], acc.2)) ([], false)).1
+      else hd0
+    let r : WsH.Req := { method := unhex (if f "um" == "" || f "um" == "-" then f "m" else f "um"), header := hd1 }
+    match WsH.upgradeDecision (fun _ => sha) u r with
+    | .error e => IO.println s!"Q err={e.code} status={e.status}"; loop h d
+    | .ok (hd, c) =>
+      IO.println s!"Q ok rx={if c.enableCompression then 1 else 0} wx={if c.writeCompression then 1 else 0} proto={hex c.subprotocol} resp={short (WsH.render101 hd)}"
+      loop h d
+  | "P" :: _ =>
+    if d.mode != "hs" then IO.println "bad-op"; loop h d else
+    let sha := unhex (f "sha")
+    let key := unhex (f "key")
+    let dc : WsH.DCfg := { enableCompression := f "ec" == "1", subprotocols := if f "sp" == "-" then [] else hexItems (f "sp"), host := [] }
+    let rq := WsH.dialRequest dc key
+    let lines := sortStrings ((rq.header.filter fun kv => kv.1 != WsH.s "Host" && kv.1 != WsH.s "Sec-Websocket-Key").map fun kv => hex kv.1 ++ ":" ++ hex kv.2)
+    let req := String.ofList (rq.method.map fun b => Char.ofNat b.toNat) ++ "|" ++ String.intercalate "," lines
+    let accHdr : List (List UInt8 × List UInt8) := match f "accept" with
+      | "ok" => [(WsH.s "Sec-Websocket-Accept", WsH.acceptKey (fun _ => sha) key)]
+      | "bad" => [(WsH.s "Sec-Websocket-Accept", WsH.s "bad")]
+      | _ => []
+    match WsH.dialerAccepts (fun _ => sha) dc key (f "status").toNat! (accHdr ++ WsH.canonHeader (kvList (f "hd"))) with
+    | .error e => IO.println s!"P err={match e with | .badHandshake => 7 | .invalidCompression => 8} req={req}"; loop h d
+    | .ok c =>
+      IO.println s!"P ok rx={if c.enableCompression then 1 else 0} wx={if c.writeCompression then 1 else 0} proto={hex c.subprotocol} req={req}"
+      loop h d
+  | "Z" :: _ =>
+    if d.mode != "hs" then IO.println "bad-op"; loop h d else
+    -- the model Dialer against the model Upgrader (key and SHA-1 cancel out: any well-formed key, any function)
+    let key := WsH.s "dGhlIHNhbXBsZSBub25jZQ=="
+    let dc : WsH.DCfg := { enableCompression := f "cec" == "1", subprotocols := if f "csp" == "-" then [] else hexItems (f "csp"), host := [] }
+    let u : WsH.UCfg := { enableCompression := f "sec" == "1", subprotocols := if f "ssp" == "nil" then none else some (hexItems (f "ssp")),
+                          originOk := true, respHeader := [] }
+    let b (x : Bool) : Nat := if x then 1 else 0
+    match WsH.upgradeDecision (fun _ => []) u (WsH.dialRequest dc key) with
+    | .error e => IO.println s!"Z err=0 serr={e.code}"; loop h d
+    | .ok (hd, sc) =>
+      match WsH.dialerAccepts (fun _ => []) dc key 101 (WsH.canonHeader hd) with
+      | .error e => IO.println s!"Z err={match e with | .badHandshake => 7 | .invalidCompression => 8} serr=0"; loop h d
+      | .ok cc =>
+        IO.println s!"Z ok srx={b sc.enableCompression} swx={b sc.writeCompression} crx={b cc.enableCompression} cwx={b cc.writeCompression} proto={hex sc.subprotocol}/{hex cc.subprotocol}"
+        loop h d
   | "C" :: "utf8" :: _ => IO.println "ok"; loop h { mode := "utf8" }
   | "C" :: "trunc" :: _ => IO.println "ok"; loop h { mode := "trunc" }
   | "T" :: sp :: _ =>
@@ -154,7 +240,7 @@ partial def loop (h : IO.FS.Stream) (d : DS) : IO Unit := do
     if d.mode != "mask" then IO.println "bad-op"; loop h d else
     IO.println s!"R {short (maskFast (unhex key) (bytesOf sp))}"; loop h d
   | "D" :: sp :: _ =>
-    if d.mode != "recv" then IO.println "bad-op"; loop h d else
+    if d.mode != "recv" || d.up.isSome then IO.println "bad-op"; loop h d else
     let data := bytesOf sp
     let d := { d with all := data :: d.all }
     if d.dead then IO.println "dead"; loop h d else
@@ -178,7 +264,8 @@ partial def loop (h : IO.FS.Stream) (d : DS) : IO Unit := do
                                           strict, infl := tinflFn (f "tinfl") }
     let a := Rfc.run (rg true) {} 0 [] fs
     let b := Rfc.run (rg false) {} 0 [] fs
-    IO.println s!"E rfc={showVerdict a.verdict}@{a.at_} len={showVerdict b.verdict}@{b.at_} exp=[{String.intercalate ";" (b.evs.map showEv)}]"
+    let may := match b.may with | some r => r.name | none => "-"
+    IO.println s!"E rfc={showVerdict a.verdict}@{a.at_} len={showVerdict b.verdict}@{b.at_} may={may} exp=[{String.intercalate ";" (b.evs.map showEv)}]"
     loop h d
   | "W" :: side :: typ :: sp :: _ =>
     if d.mode != "rt" then IO.println "bad-op"; loop h d else
@@ -194,7 +281,18 @@ partial def loop (h : IO.FS.Stream) (d : DS) : IO Unit := do
     let (sr1, racts, rerr) := feedSegs gr (mkEnv ws "bkeys" sr.k.nwrites) sr (cutUp wire cuts) []
     let back := writesOf racts
     let pb := if back.isEmpty then (⟨ss1, [], none⟩ : PR) else parse gs (mkEnv ws "rkeys" ss1.k.nwrites) ss1 back
-    IO.println s!"W werr={werr} wire={short wire} recv={showActs racts} rerr={errStr rerr} back={showActs pb.acts} berr={errStr pb.err}"
+    -- the codec law on the observed tables: readAll (inflate (deflate x)) = x
+    let x := bytesOf sp
+    let envS := mkEnv ws "keys" 0
+    let isData := opType typ == 1 || opType typ == 2
+    let codec :=
+      if isData && gs.writeCompression && werr == 0 && (f "infl") != "" then
+        match readAll gr.msgLimit ((envS.deflate x).length * 2) (envS.inflate (envS.deflate x)) with
+        | .ok out => if out == x then "ok" else "bad"
+        | .tooLarge _ => "big"
+        | _ => "bad"
+      else "-"
+    IO.println s!"W werr={werr} wire={short wire} recv={showActs racts} rerr={errStr rerr} back={showActs pb.acts} berr={errStr pb.err} rcache={sr1.cache.length} rmsglen={msgLen sr1} codec={codec}"
     let ss2 := pb.s
     let down := ss2.k.connClosed || sr1.k.connClosed || rerr.isSome || pb.err.isSome
     let ss2 : S := { ss2 with k := { ss2.k with connClosed := down } }
